@@ -83,7 +83,17 @@ func Digest(o object.PanObject) (string, []object.PanObject) {
 		if v.FuncKind == object.IterFunc {
 			return "iter", nil // iterators change by next/recur
 		}
-		return fmt.Sprintf("func %p env %p", v.FuncWrapper, v.Env), nil
+		// what a function prints (source), binds (parameters, keyword defaults) and closes over
+		d := fmt.Sprintf("func %p env %p src %q", v.FuncWrapper, v.Env, v.FuncWrapper.String())
+		if a := v.FuncWrapper.Args(); a != nil {
+			d += " args " + id(a)
+			kids = append(kids, a)
+		}
+		if k := v.FuncWrapper.Kwargs(); k != nil {
+			d += " kwargs " + id(k)
+			kids = append(kids, k)
+		}
+		return d, kids
 	case *object.PanErrWrapper:
 		return fmt.Sprintf("errw %s: %s proto %p", v.ErrKind, v.Msg, v.Proto()), nil
 	case *object.PanErr:
